@@ -28,7 +28,8 @@ Parts
      shipped g7 reduced = triangles and quadrilaterals, gmsh, radial).
   C  MINC: 2..6 fractions (normalised or not), 1..3 plane sets, spacing {1, 50, 1e3} scalar or per plane set,
      full / explicit / partial selection by name or by block object, default or custom matrix names.
-  D  embed: sub-grid volume below / equal / above the host block volume, clashing names.
+  D  embed: sub-grid volume below / equal / above the host block volume, clashing names; the embedding connection
+     built from the grids' own block objects or ('embed-copied-ends') from deep copies / fresh same-named blocks.
 """
 import sys, os, json, time, random, itertools, math, tempfile, shutil, io, contextlib
 import warnings
@@ -883,7 +884,9 @@ def embed_case(rnd, i):
     else:
         sub.update(dr=[0.5] * rnd.randint(1, 4), dz=[1.] * rnd.randint(1, 2), atm=2)
     return {'desc': desc, 'sub': sub, 'ratio': [0.25, 0.999999, 1.0, 1.000001, 3.0, 1e-6][i % 6], 'clash': i % 7 == 3,
-            'hostseed': rnd.randrange(1 << 30)}
+            'hostseed': rnd.randrange(1 << 30),
+            # ends of the embedding connection: the grids' own block objects, or same-named stand-ins
+            'ends': ['own', 'deepcopy', 'fresh'][(i // 6) % 3]}
 
 
 def run_embed(case, st):
@@ -920,8 +923,15 @@ def run_embed(case, st):
     subvol = sum([b.volume for b in s.blocklist])      # as a user would compute it
     hostvol = float(host.volume)
     sig_g, sig_s = signature(g), signature(s)
-    con = t2connection([host, s.blocklist[0]], 2, [1.25, 0.5], 3.5, 0.0)
-    t = 'embed ratio=%r clash=%s %s' % (case['ratio'], case['clash'], tag(case['desc']))
+    ends = [host, s.blocklist[0]]
+    if case['ends'] == 'deepcopy':
+        import copy
+        ends = [copy.deepcopy(b) for b in ends]
+    elif case['ends'] == 'fresh':
+        ends = [t2block(b.name, b.volume, rocktype(b.rocktype.name)) for b in ends]
+    con = t2connection(ends, 2, [1.25, 0.5], 3.5, 0.0)
+    fam = 'embed' if case['ends'] == 'own' else 'embed-copied-ends'
+    t = 'ratio=%r clash=%s ends=%s %s' % (case['ratio'], case['clash'], case['ends'], tag(case['desc']))
     inp = dict(case)
     inp['host'] = host.name
     size = len(g.blocklist)
@@ -932,29 +942,29 @@ def run_embed(case, st):
         with contextlib.redirect_stdout(io.StringIO()), time_limit(60):
             res = g.embed(s, con)
     except HarnessTimeout:
-        st.failure('timeout embed %s' % t, 'embed did not return within 60 s', inp, size)
+        st.failure('timeout %s %s' % (fam, t), 'embed did not return within 60 s', inp, size)
         return
     except Exception as e:
-        st.failure('embed:exception %s' % t, 'embed raised %s: %s' % (type(e).__name__, e), inp, size)
+        st.failure('%s:exception %s' % (fam, t), 'embed raised %s: %s' % (type(e).__name__, e), inp, size)
         return
     if (res is None) != expect_none:
-        st.failure('embed:none %s' % t, 'embed returned %s; sub-grid volume %r, host volume %r, name clash %s' %
+        st.failure('%s:none %s' % (fam, t), 'embed returned %s; sub-grid volume %r, host volume %r, name clash %s' %
                    ('None' if res is None else 'a grid', fl(subvol), hostvol, clash), inp, size)
         return
     if res is None:
         st.count('embed-frame')
         d = compare(sig_g, signature(g))
         for clause, detail in d[:2]:
-            st.failure('embed:refused-but-changed-%s %s' % (clause, t), detail, inp, size)
+            st.failure('%s:refused-but-changed-%s %s' % (fam, clause, t), detail, inp, size)
         return
     st.count('embed-volume')
     rb = dict((b.name, b) for b in res.blocklist)
     tot_after = math.fsum(b.volume for b in res.blocklist if b.volume < 1e20)
     tot_before = math.fsum(v[0] for n, v in sig_g[0].items() if v[0] < 1e20)
     if abs(tot_after - tot_before) > 1e-12 * tot_before:
-        st.failure('embed:total-volume %s' % t, 'total volume %r before, %r after' % (tot_before, tot_after), inp, size)
+        st.failure('%s:total-volume %s' % (fam, t), 'total volume %r before, %r after' % (tot_before, tot_after), inp, size)
     if abs(rb[host.name].volume - (hostvol - subvol)) > 1e-12 * hostvol:
-        st.failure('embed:host-volume %s' % t, 'host volume %r -> %r, sub-grid volume %r' % (hostvol, fl(rb[host.name].volume), fl(subvol)), inp, size)
+        st.failure('%s:host-volume %s' % (fam, t), 'host volume %r -> %r, sub-grid volume %r' % (hostvol, fl(rb[host.name].volume), fl(subvol)), inp, size)
     st.count('embed-frame')
     # the union of both signatures, plus the embedding connection, host volume excepted
     eb = dict(sig_g[0])
@@ -967,7 +977,7 @@ def run_embed(case, st):
     d = compare((eb, ep, []), signature(res), None, ignore_volume_of=set([host.name]))
     d += lookup_agreement(res)
     for clause, detail in d[:3]:
-        st.failure('embed:frame-%s %s' % (clause, t), detail, inp, size)
+        st.failure('%s:frame-%s %s' % (fam, clause, t), detail, inp, size)
 
 # ----------------------------------------------------------------------------------------------
 
@@ -1026,7 +1036,7 @@ def main():
     try:
         tasks = [t + (tmp,) for t in small_tasks(tier, seed)]
         nA = sum(len(t[2]) for t in tasks)
-        nB, nC, nD = (1000, 900, 480) if tier == 'quick' else (40000, 30000, 8000)
+        nB, nC, nD = (1000, 900, 720) if tier == 'quick' else (40000, 30000, 12000)
         for kind, n, per in (('B', nB, 25), ('C', nC, 45), ('D', nD, 60)):
             for i in range(n // per):
                 tasks.append((kind, seed * 1000003 + 7919 * i + ord(kind), per, tmp))
